@@ -742,7 +742,10 @@ func (s *programState) makeAllotment(monetary *big.Int, items []parser.Allotment
 	for i, item := range items {
 		switch allotment := item.(type) {
 		case *parser.RatioLiteral:
-			rat := allotment.ToRatio()
+			rat, err := ratioLiteralToRat(allotment)
+			if err != nil {
+				return nil, err
+			}
 			totalAllotment.Add(totalAllotment, rat)
 			allotments = append(allotments, rat)
 		case *parser.Variable:
